@@ -1,5 +1,7 @@
 import Driver.Util
 import Driver.Mac
+import Driver.Dev
+import Driver.Nb
 import LoraVerif.Gen.Session
 /-! Suite C05: `next_fcnt_down` (generated from session.rs) and MAC histories. -/
 namespace Driver.C05
@@ -33,6 +35,8 @@ def digest (f : Int → Option Int) : UInt64 := Id.run do
 def handle (ws : List String) : String :=
   match ws with
   | "mac" :: rest => s!"{Driver.Mac.run rest} ## oracle=ok|-"
+  | "nbdev" :: rest => s!"{Driver.Nb.run rest} ## oracle=ok|-"
+  | "adev" :: rest => s!"{Driver.Dev.run rest} ## oracle=ok|-"
   | ["next", last, wire] =>
     match parseInt? wire with
     | some w =>
